@@ -108,7 +108,7 @@ def deinv(model: 'Model', triple: 'tuple') -> 'tuple':
 @spec(opaque=True)
 def with_pop(entries: 'list') -> 'list':
     """POP is recorded on the last triple of a nested node"""
-    return entries[:-1] + [(entries[-1][0], entries[-1][1] + [mk('Pop')])]
+    return init(entries) + [(last(entries)[0], last(entries)[1] + [mk('Pop')])]
 
 
 @spec
@@ -201,9 +201,25 @@ def _interpret_node(t: 'val', variables: 'set', model: 'Model') -> 'tuple':
     invariant(0, lambda: implies(has_concept, len(epidata) >= 1))
     invariant(0, lambda: forall_idx(epidata, lambda j, e: pair_with_list(e)))
     # proof hints for the nested-node step: one unfolding of read_edges, and with_pop spelled out
-    use('loop0.step.0', lambda: read_edges_snoc(var, edges[:_i - 1], edges[_i - 1], variables, model))
+    use('loop0.step.0', lambda: read_edges_step(var, edges, _i - 1, variables, model))
     use('loop0.step.0', lambda: with_pop_is(read_node(target, variables, model)))
     use('post.nonempty', lambda: with_pop_is(read_node(target, variables, model)))
+
+
+@lemma
+def read_edges_step(var: 'val', es: 'list', k: 'int', variables: 'set', model: 'Model'):
+    """one unfolding of read_edges, stated over prefixes (the form the loop invariant has)"""
+    requires(0 <= k and k < len(es))
+    ensures(read_edges(var, es[:k + 1], variables, model)
+            == read_edges(var, es[:k], variables, model) + read_edge(var, es[k], variables, model))
+    use('post', lambda: read_edges_snoc(var, es[:k], es[k], variables, model))
+    use('post', lambda: prefix_snoc(es, k))
+
+
+@lemma
+def prefix_snoc(xs: 'list', k: 'int'):
+    requires(0 <= k and k < len(xs))
+    ensures(xs[:k + 1] == xs[:k] + [xs[k]])
 
 
 @lemma
@@ -215,7 +231,7 @@ def read_edges_snoc(var: 'val', es: 'list', b: 'val', variables: 'set', model: '
 @lemma
 def with_pop_is(entries: 'list'):
     requires(len(entries) >= 1 and pair_with_list(entries[-1]))
-    ensures(with_pop(entries) == entries[:-1] + [(entries[-1][0], entries[-1][1] + [mk('Pop')])])
+    ensures(with_pop(entries) == init(entries) + [(last(entries)[0], last(entries)[1] + [mk('Pop')])])
     ensures(len(with_pop(entries)) == len(entries))
     ensures(pair_with_list(with_pop(entries)[-1]))
 
